@@ -494,6 +494,14 @@ def c02_float64_binary(a):
 def search_c02(seed, tier, limit=5):
     r = C.rng(seed, "c02")
     out, n = [], 0
+    # spacelike vectors with |z| < t (t >= 0): the documented definitions on every stored system, tau storage encoding them with tau < 0
+    for q in points(3, r, 1)[: (3 if tier == "quick" else 8)]:
+        mag = sum(float(x) ** 2 for x in q) ** 0.5
+        p_sp = q + [repr(max(abs(float(q[2])) * 1.05, mag * 0.9))]
+        for sig in C.SIG4:
+            for m in ("t", "t2", "tau", "tau2", "beta", "Et", "Et2", "Mt2", "Mt", "mag", "eta"):
+                n += 1
+                run(c02_unary, {"m": m, "sig": list(sig), "p": p_sp, "fl": "m" if m in ("Et", "Et2", "Mt", "Mt2") else "g"}, out, limit)
     # float64 clause for two-vector operations, incl. highly relativistic boosters given by (.., mass)
     import math
     pts4 = points(4, r, 2)
